@@ -168,17 +168,20 @@ structure SameRest (p q : Position) : Prop where
   epK : q.hash.epK = p.hash.epK
   castK : q.hash.castK = p.hash.castK
   len : q.board.length = p.board.length
+  ply : q.ply = p.ply
+  halfmove : q.halfmove = p.halfmove
+  history : q.history = p.history
 
-theorem sameRest_refl (p : Position) : SameRest p p := ⟨rfl, rfl, rfl, rfl, rfl, rfl, rfl⟩
+theorem sameRest_refl (p : Position) : SameRest p p := ⟨rfl, rfl, rfl, rfl, rfl, rfl, rfl, rfl, rfl, rfl⟩
 theorem sameRest_trans {p q r : Position} (a : SameRest p q) (b : SameRest q r) : SameRest p r :=
   ⟨b.side.trans a.side, b.castling.trans a.castling, b.ep.trans a.ep, b.colorK.trans a.colorK, b.epK.trans a.epK,
-   b.castK.trans a.castK, b.len.trans a.len⟩
+   b.castK.trans a.castK, b.len.trans a.len, b.ply.trans a.ply, b.halfmove.trans a.halfmove, b.history.trans a.history⟩
 theorem sameRest_move (T : ZTable) (p : Position) (f t : Nat) : SameRest p (movePiece T p f t) :=
-  ⟨rfl, rfl, rfl, by simp [movePiece], by simp [movePiece], by simp [movePiece], by simp [movePiece]⟩
+  ⟨rfl, rfl, rfl, by simp [movePiece], by simp [movePiece], by simp [movePiece], by simp [movePiece], rfl, rfl, rfl⟩
 theorem sameRest_add (T : ZTable) (p : Position) (pc sq : Nat) : SameRest p (addPiece T p pc sq) :=
-  ⟨rfl, rfl, rfl, by simp [addPiece], by simp [addPiece], by simp [addPiece], by simp [addPiece]⟩
+  ⟨rfl, rfl, rfl, by simp [addPiece], by simp [addPiece], by simp [addPiece], by simp [addPiece], rfl, rfl, rfl⟩
 theorem sameRest_remove (T : ZTable) (p : Position) (sq : Nat) : SameRest p (removePiece T p sq) :=
-  ⟨rfl, rfl, rfl, by simp [removePiece], by simp [removePiece], by simp [removePiece], by simp [removePiece]⟩
+  ⟨rfl, rfl, rfl, by simp [removePiece], by simp [removePiece], by simp [removePiece], by simp [removePiece], rfl, rfl, rfl⟩
 
 theorem mid_castle (T : ZTable) (p : Position) (side m : Nat) (hm : Mid T p) (hlen : p.board.length = 64) (hs : side ≤ 1)
     (hk : p.board.getD (mkSquare (if side = 0 then 0 else 7) 4) 0 ≠ 0)
@@ -197,7 +200,7 @@ theorem mid_castle (T : ZTable) (p : Position) (side m : Nat) (hm : Mid T p) (hl
   have key : ∀ kf rf rt, kf < 8 → rf < 8 → rt < 8 → kf ≠ 4 → rf ≠ 4 → rf ≠ kf → rt ≠ 4 → rt ≠ kf → rt ≠ rf →
       p.board.getD (mkSquare r kf) 0 = 0 → p.board.getD (mkSquare r rt) 0 = 0 → p.board.getD (mkSquare r rf) 0 ≠ 0 →
       let q := movePiece T (movePiece T p1 (mkSquare r 4) (mkSquare r kf)) (mkSquare r rf) (mkSquare r rt)
-      PK T q ∧ SameRest p q := by
+      PK T q ∧ SameRest p1 q := by
     intro kf rf rt h1 h2 h3 n1 n2 n3 n4 n5 n6 e1 e2 e3
     have hp1 : PK T (movePiece T p1 (mkSquare r 4) (mkSquare r kf)) :=
       pk_move T p1 _ _ hpk1 (sq 4 (by omega)) (sq kf h1) (by unfold mkSquare; omega) hk e1
@@ -207,7 +210,7 @@ theorem mid_castle (T : ZTable) (p : Position) (side m : Nat) (hm : Mid T p) (hl
           rw [getD_set_ne _ _ _ _ (by unfold mkSquare; omega), getD_set_ne _ _ _ _ (by unfold mkSquare; omega)]; exact e3)
       (by show ((p.board.set (mkSquare r 4) 0).set (mkSquare r kf) _).getD (mkSquare r rt) 0 = 0
           rw [getD_set_ne _ _ _ _ (by unfold mkSquare; omega), getD_set_ne _ _ _ _ (by unfold mkSquare; omega)]; exact e2)
-    exact ⟨hp2, sameRest_trans (sameRest_trans (⟨rfl, rfl, rfl, rfl, rfl, rfl, rfl⟩ : SameRest p p1) (sameRest_move T p1 _ _)) (sameRest_move T _ _ _)⟩
+    exact ⟨hp2, sameRest_trans (sameRest_move T p1 _ _) (sameRest_move T _ _ _)⟩
   rw [keyOK_iff]
   by_cases hc : moveCastling m = KING_CASTLING
   · obtain ⟨h6, h5, h7⟩ := hK hc
@@ -215,13 +218,13 @@ theorem mid_castle (T : ZTable) (p : Position) (side m : Nat) (hm : Mid T p) (hl
     simp only [hc, if_true]
     refine ⟨pk_congr T _ _ rfl rfl rfl hpk, by simp [setCastlingKey], ?_, ?_⟩
     · simp only [setCastlingKey]; rw [hsr.colorK, hsr.side]; exact hm.color
-    · simp only [setCastlingKey]; rw [hsr.epK]; simp [hm.ep0]
+    · simp only [setCastlingKey]; rw [hsr.epK]; show p.hash.epK = _; simp [hm.ep0]
   · obtain ⟨h2, h3, h0⟩ := hQ hc
     obtain ⟨hpk, hsr⟩ := key 2 0 3 (by omega) (by omega) (by omega) (by omega) (by omega) (by omega) (by omega) (by omega) (by omega) h2 h3 h0
     simp only [hc, if_false]
     refine ⟨pk_congr T _ _ rfl rfl rfl hpk, by simp [setCastlingKey], ?_, ?_⟩
     · simp only [setCastlingKey]; rw [hsr.colorK, hsr.side]; exact hm.color
-    · simp only [setCastlingKey]; rw [hsr.epK]; simp [hm.ep0]
+    · simp only [setCastlingKey]; rw [hsr.epK]; show p.hash.epK = _; simp [hm.ep0]
 
 theorem mid_of (T : ZTable) (p q : Position) (hm : Mid T p) (hpk : PK T q) (sr : SameRest p q) : Mid T q :=
   ⟨hpk, by rw [sr.castK, sr.castling]; exact hm.cast, by rw [sr.colorK, sr.side]; exact hm.color, by rw [sr.epK]; exact hm.ep0⟩
